@@ -57,6 +57,18 @@ example : TableOK docLevels
      fun u => 2 * genTable.unary u, 0⟩ := by
   unfold TableOK; decide +kernel
 
+/-- A renumbering that does not change any grouping keeps `TableOK` even when it leaves the row
+order of the left powers: `|` at (15, 16) — its right power is never used, its left power only
+has to stay above every right power that admits it — parses exactly as (17, 18) does; only the
+separate `orderMatches` clause of `bp_table_matches_doc` notices it. -/
+example : TableOK docLevels
+      ⟨fun op => match op with | .Pipe => (15, 16) | o => genTable.binary o,
+       genTable.unary, genTable.ternary⟩
+    ∧ orderMatches docLevels
+      ⟨fun op => match op with | .Pipe => (15, 16) | o => genTable.binary o,
+       genTable.unary, genTable.ternary⟩ = false := by
+  unfold TableOK; decide +kernel
+
 /-- ... and it is not vacuous: swapping the rows of `+` and `*` breaks it. -/
 example : ¬ TableOK docLevels
     ⟨fun op => match op with
@@ -76,7 +88,10 @@ function calls `f(k1=v1, …)`, and array literals `[x, ...y, …]` of any lengt
 comma) up to the dimension limit, denoting the CONSTANT array when every entry is a constant (the
 parser's folding, `S.foldArray`) and an `Array` node otherwise, map literals `{k: v, ...m, …}`
 with string / integer / boolean keys (constant folding `S.foldMap`: an all-constant map is one
-constant in which a later duplicate key overrides an earlier one).  Argument lists denote their arguments SORTED BY NAME
+constant in which a later duplicate key overrides an earlier one), and list comprehensions
+`[e for [k,] v in target [if cond]]` (target and condition are not bare ternaries; the loop
+variables are not reserved words), and slices `e[a:b:c]` / `e?[a:b:c]` with every combination of
+omitted parts.  Argument lists denote their arguments SORTED BY NAME
 (`Expr.sortKwargs`), which is the canonical form of the `HashMap` the parser builds.  `S.toks` spells it as tokens, `S.erase` is the
 AST the documentation assigns to it.  `S.DocWP L s` says that `s` has at least the parentheses
 the documented levels `L` require (any number of redundant ones anywhere).  The theorems say that
@@ -85,8 +100,11 @@ for every operator combination, for every choice of redundant parentheses, withi
 limits, for EVERY binding-power table with `TableOK`, hence (by `bp_table_matches_doc`) for the
 powers parser.rs has now.
 
-Not covered by these theorems (correspondence run only): trailing commas and the rejection of a
-repeated argument name, `loop.*` inside a loop, slices, list comprehensions, component calls, and the byte-level lexer
+Argument lists, array literals and map literals may end in a trailing comma (`argEnd`, `itemEnd`,
+`entryEnd`) when they are not empty.
+
+Not covered by these theorems (correspondence run only): the REJECTION of malformed input (e.g. a
+repeated argument name), `loop.*` inside a loop, component calls, and the byte-level lexer
 (whitespace; `}}` inside nested map literals needs a space, observation O8). -/
 
 /-- a token that can only end an expression: the loop does not know it and it does not continue
@@ -220,6 +238,31 @@ example : (S.index (.mapLit (.entryKV (.str "a") (.int 1) (.entrySpread (.var "m
       = .map [.keyValue (.str ['a']) (.const (.i64 1)), .spread (.var "m")] := by
   refine ⟨by decide +kernel, by simp [S.erase, S.eraseEntries, S.foldMap, S.mapLitOf, S.entryLit,
     SKey.key, Expr.isLiteral]⟩
+
+/-- the documentation's `[x if x > 1 else 0 for x in numbers]` and `[v for k, v in data]` -/
+example :
+    (S.comp (.ternary (.binary .GreaterThan (.var "x") (.int 1)) (.var "x") (.int 0)) none "x"
+      (.var "numbers") .absent).DocWP docLevels
+    ∧ (S.filter (.comp (.var "v") (some "k") "v" (.var "data") (.test (.var "v") "odd" false))
+        "safe").DocWP docLevels := by
+  refine ⟨by decide +kernel, by decide +kernel⟩
+
+/-- `xs[::-1]`, `name?[1:]` and `"abc"[a:b:c]` -/
+example :
+    (S.subSlice (.var "xs") .absent .absent (.unary .Minus (.int 1)) false).DocWP docLevels
+    ∧ (S.subSlice (.var "name") (.int 1) .absent .absent true).DocWP docLevels
+    ∧ (S.slice (.str "abc") (.var "a") (.var "b") (.var "c")).DocWP docLevels
+    ∧ (S.subSlice (.var "xs") .absent .absent (.unary .Minus (.int 1)) false).erase
+      = .slice (.var "xs") none none (some (.unary .Minus (.const (.i64 1)))) false := by
+  refine ⟨by decide +kernel, by decide +kernel, by decide +kernel, by simp [S.erase, S.isAbsent]⟩
+
+/-- trailing commas: `[1, a,]`, `f(x=1,)`, `{"k": 1,}` -/
+example :
+    (S.arr (.itemCons false (.int 1) (.itemCons false (.var "a") .itemEnd))).DocWP docLevels
+    ∧ (S.call "f" (.argCons "x" (.int 1) .argEnd)).DocWP docLevels
+    ∧ (S.mapLit (.entryKV (.str "k") (.int 1) .entryEnd)).DocWP docLevels
+    ∧ ¬ (S.arr .itemEnd).DocWP docLevels := by
+  refine ⟨by decide +kernel, by decide +kernel, by decide +kernel, by decide +kernel⟩
 
 /-- arguments come out sorted by name whatever their order in the source -/
 example : (S.call "f" (.argCons "to" (.int 1) (.argCons "from" (.int 2) .argNil))).erase
